@@ -536,6 +536,48 @@ def shrink_json(v, still_fails):
     return v
 
 
+def small_docs(depth):
+    keys = ["a", "x-koreo-compare-as-set", "x-koreo-compare-as-map"]
+    if depth == 0:
+        return [1]
+    sub = small_docs(depth - 1)
+    out = [1, [], {}]
+    out += [[x] for x in sub]
+    out += [{k: x} for k in keys for x in sub]
+    out += [{k1: x, k2: y} for k1 in keys for k2 in keys if k1 != k2 for x in sub for y in sub]
+    return out
+
+
+def holder_shapes():
+    absent = object()
+    metas = [absent, {}, {"name": "w"}, None, "x", [], ["annotations"], 0, "annotations", True]
+    annos = [absent, {}, {"a": "b"}, {ANNOT: "mine"}, {"a": "b", ANNOT: ""}, None, "x", [], [ANNOT], 0]
+    spots = ["none", "top", "metadata", "annotations", "list-item"]
+    for m in metas:
+        for a in (annos if isinstance(m, dict) else [absent]):
+            for spot in spots:
+                obj = {"kind": "Widget", "spec": {"items": [{"name": "a"}]}}
+                if m is not absent:
+                    md = copy.deepcopy(m)
+                    if isinstance(md, dict) and a is not absent:
+                        md["annotations"] = copy.deepcopy(a)
+                    obj["metadata"] = md
+                d = {"x-koreo-compare-as-set": ["x"]}
+                if spot == "top":
+                    obj.update(d)
+                elif spot == "metadata":
+                    if not isinstance(obj.get("metadata"), dict):
+                        continue
+                    obj["metadata"].update(d)
+                elif spot == "annotations":
+                    if not (isinstance(obj.get("metadata"), dict) and isinstance(obj["metadata"].get("annotations"), dict)):
+                        continue
+                    obj["metadata"]["annotations"].update(d)
+                elif spot == "list-item":
+                    obj["spec"]["items"][0].update(d)
+                yield obj
+
+
 def gen_unit_cases(ctx: Ctx):
     rng = ctx.rng
     q = ctx.quick()
@@ -552,13 +594,20 @@ def gen_unit_cases(ctx: Ctx):
     for j in fixed_strip:
         yield {"kind": "strip", "j": j}
         yield {"kind": "prepare", "obj": j}
-    for _ in range(n(350, 6000)):
+    # exhaustive small scope: every document of depth <= 2 over {scalar, [], [x], {}, {k:x}, {k1:x, k2:y}} with keys
+    # from one ordinary key and two directive keys (1069 documents)
+    for j in small_docs(2):
+        yield {"kind": "strip", "j": j}
+    # exhaustive: every metadata / annotations shape x where a directive sits
+    for obj in holder_shapes():
+        yield {"kind": "prepare", "obj": obj}
+    for _ in range(n(600, 8000)):
         yield {"kind": "strip", "j": gen_value(rng, rng.choice([1, 2, 3, 4, 5]), p_dir=0.4)}
-    for _ in range(n(500, 8000)):
+    for _ in range(n(800, 10000)):
         yield {"kind": "prepare", "obj": gen_target(rng, rng.choice([1, 2, 3, 4]))}
     for _ in range(n(350, 5000)):
         yield {"kind": "extract", "live": gen_live_extract(rng)}
-    for _ in range(n(450, 7000)):
+    for _ in range(n(700, 9000)):
         owner = gen_owner(rng)
         view = gen_view(rng, owner)
         yield {"kind": "updated", "view": view, "owner": owner}
@@ -638,12 +687,16 @@ def gen_live_refs(rng):
     for _ in range(rng.choice([1, 1, 2, 3])):
         u = rng.random()
         ref = {"apiVersion": "v1", "kind": "Other", "name": rng.choice(["o1", "o2"])}
-        if u < 0.3:
+        if u < 0.25:
             ref = dict(OWNER_REF) if rng.random() < 0.6 else {"apiVersion": "v0", "kind": "Parent", "name": "old",
                                                                 "uid": "uid-parent"}
+        elif u < 0.4:
+            # same name / kind as the parent, but another object (uid differs): still lacking
+            ref = {**OWNER_REF, "uid": rng.choice(["uid-previous-parent", "u1"])}
         elif u < 0.9:
             ref["uid"] = rng.choice(["u1", "u2", "u3"])
         out.append(ref)
+    rng.shuffle(out)
     return out
 
 
@@ -665,6 +718,7 @@ def gen_scenario(rng, idx):
         "doc": gen_flow_doc(rng),
         "overlays": [gen_flow_doc(rng, p_dir=0.6, with_meta=rng.random() < 0.4)
                      for _ in range(rng.choice([0, 0, 1, 1, 2]))],
+        "overlay_via_vf": [rng.random() < 0.3 for _ in range(2)],
         "create_overlay": gen_flow_doc(rng, p_dir=0.5, with_meta=False) if rng.random() < 0.3 else None,
         "owned": rng.random() < 0.6,
         "namespaced": namespaced, "ns": ns, "owner_ns": owner_ns,
@@ -784,7 +838,11 @@ def build_spec(scn):
     else:
         spec["resourceTemplateRef"] = {"name": "tpl"}
     if scn["overlays"]:
-        spec["overlays"] = [{"overlay": copy.deepcopy(o)} for o in scn["overlays"]]
+        via = scn.get("overlay_via_vf") or []
+        spec["overlays"] = [
+            ({"overlayRef": {"kind": "ValueFunction", "name": f"vf{i}"}} if (i < len(via) and via[i])
+             else {"overlay": copy.deepcopy(o)})
+            for i, o in enumerate(scn["overlays"])]
     if scn["create_overlay"] is not None:
         spec["create"] = {"delay": 5, "overlay": copy.deepcopy(scn["create_overlay"])}
     return spec, kind
@@ -802,6 +860,14 @@ async def _prepare_fn(scn):
         await cache.prepare_and_cache(resource_class=ResourceTemplate, preparer=prepare_resource_template,
                                       metadata={"name": "tpl", "resourceVersion": "1"},
                                       spec={"template": tpl})
+    via = scn.get("overlay_via_vf") or []
+    for i, o in enumerate(scn["overlays"]):
+        if i < len(via) and via[i]:
+            from koreo.value_function.prepare import prepare_value_function
+            from koreo.value_function.structure import ValueFunction
+            await cache.prepare_and_cache(resource_class=ValueFunction, preparer=prepare_value_function,
+                                          metadata={"name": f"vf{i}", "resourceVersion": "1"},
+                                          spec={"return": copy.deepcopy(o)})
     p = await drivers.prepare_rf("fn", spec)
     fn, err = drivers.unwrap_prepared(p)
     return fn, err, kind
@@ -1006,6 +1072,7 @@ def shrink_scenario(scn, still_fails):
         except Exception:  # noqa: BLE001
             return False
     for mutate in (lambda c: c.update(overlays=[]), lambda c: c.update(create_overlay=None),
+                   lambda c: c.update(overlay_via_vf=[False, False]),
                    lambda c: c.update(source="inline"), lambda c: c.update(live_refs=None),
                    lambda c: c.update(live_refs=[]), lambda c: c.update(drift=False),
                    lambda c: c.update(mode="create")):
@@ -1022,6 +1089,9 @@ def shrink_scenario(scn, still_fails):
 # =====================================================================================
 # driver
 # =====================================================================================
+
+SHRUNK: set = set()
+
 
 def check_unit(ctx: Ctx, case, cases, terms):
     try:
@@ -1046,6 +1116,12 @@ def check_unit(ctx: Ctx, case, cases, terms):
     if bad:
         sig, what = bad
         field = "j" if k == "strip" else "obj"
+        if sig in SHRUNK:
+            ctx.fail(Failure(signature=sig, what=what, case=case))
+            cases.append(case)
+            terms.append(term)
+            return
+        SHRUNK.add(sig)
 
         def still(v):
             c = {**case, field: v}
@@ -1075,6 +1151,10 @@ def check_flow(ctx: Ctx, scn, cap, cases, terms, shrink=True):
         return
     ctx.note_case(scn, nontrivial=True)
     ctx.count(f"flow:source:{scn['source']}")
+    ctx.count(f"flow:overlays:{len(scn['overlays'])}"
+              f"{'(vf)' if any((scn.get('overlay_via_vf') or [False, False])[:len(scn['overlays'])]) else ''}")
+    if scn["create_overlay"] is not None:
+        ctx.count("flow:create-overlay")
     ctx.count(f"flow:own={scn['owned']},owner_ns={scn['owner_ns']},ns={scn['ns']}")
     ctx.count(f"flow:mode:{scn['mode']}")
     if scn.get("malformed"):
@@ -1095,6 +1175,11 @@ def check_flow(ctx: Ctx, scn, cap, cases, terms, shrink=True):
                     ctx.count("flow:payload-built-from-target-with-directives")
         for sig, what in flow_oracle(scn, st):
             small = scn
+            first = sig not in SHRUNK
+            SHRUNK.add(sig)
+            if not first:
+                ctx.fail(Failure(signature=sig, what=what, case=scn))
+                continue
             if shrink:
                 def still(c, sig=sig):
                     r = run_flow(c, cap)
@@ -1132,6 +1217,7 @@ def correspond_sharded(ctx: Ctx, name, cases, terms, shard=90, jobs=4):
 
 def run(ctx: Ctx):
     logging.disable(logging.CRITICAL)
+    SHRUNK.clear()
     cases, terms = [], []
     fcases, fterms = [], []
     cap = Capture()
@@ -1146,7 +1232,7 @@ def run(ctx: Ctx):
             check_unit(ctx, case, cases, terms)
         for scn in exhaustive_scenarios():
             check_flow(ctx, scn, cap, fcases, fterms)
-        for i in range(120 if ctx.quick() else 2500):
+        for i in range(260 if ctx.quick() else 4000):
             check_flow(ctx, gen_scenario(ctx.rng, i), cap, fcases, fterms)
     finally:
         cap.restore()
